@@ -22,6 +22,7 @@ func init() {
 			{"C04.codec-agree", "index header/table written and read as the same field sequence; sizes and tail marker agree", 6, c04Codec},
 			{"C04.rejections", "IndexFromReader rejects a wrong digest flag and any chunk larger than the maximum", 3, c04Rejections},
 			{"C04.offsets", "start/size <-> cumulative offsets are inverse linear maps", 4, c04Offsets},
+			{"C04.errors-not-dropped", "no error of the operations this property depends on is dropped", 1, func(c *Ctx) { c.errorsNotDropped("C04") }},
 		},
 	})
 }
